@@ -457,6 +457,85 @@ pub fn case_program(bytes: &[u8], ctx: &mut Ctx) -> CaseResult {
         let inp = b.spends.iter().map(|sp| (sp.parent, sp.puzzle_hash, sp.amount)).collect();
         (proglevel::coin_spends(&b), inp, format!("bundle tree={}", b.tree.render(b.root)))
     };
+    // one case in twelve: a spend of the STANDARD transaction puzzle (the module
+    // of chia-puzzles curried with a pool key; solution (() (q . conditions) ())),
+    // genuine or with the curried environment taken from another path of the
+    // solution — `(a (q . MOD) (c (q . KEY) p))` for p in {2, 3, 5, 7} instead of 1,
+    // with the solution wrapped so that path p holds the genuine solution. Such a
+    // reveal differs from the genuine one only in its last bytes, RUNS exactly like
+    // it and emits the same conditions, but it is a different program: its coin
+    // keeps claiming the genuine puzzle hash. (Real-world puzzles are the inputs a
+    // pattern-matching fast path would be written for.)
+    if coin_spends.len() <= 60 && s.chance(21) {
+        let path = [1u8, 1, 2, 3, 5, 7][s.below(6)];
+        let key = condgen::key_pool().pks[s.below(condgen::NUM_KEYS)];
+        let mut t = Tree::new();
+        let mk = |t: &mut Tree, path: u8| -> Tid {
+            // (a (q . MOD) (c (q . KEY) path))
+            let mut al = Allocator::new();
+            let m = clvmr::serde::node_from_bytes(&mut al, &chia_puzzles::P2_DELEGATED_PUZZLE_OR_HIDDEN_PUZZLE).expect("module");
+            let (mt, mroot) = Tree::from_allocator(&al, m, 100_000).expect("module tree");
+            // copy the module into t
+            fn copy(src: &Tree, id: Tid, dst: &mut Tree) -> Tid {
+                match src.get(id).clone() {
+                    gentree::TNode::Atom(b) => dst.atom(&b),
+                    gentree::TNode::Pair(l, r) => {
+                        let l2 = copy(src, l, dst);
+                        let r2 = copy(src, r, dst);
+                        dst.pair(l2, r2)
+                    }
+                }
+            }
+            let module = copy(&mt, mroot, t);
+            let q = t.atom(&[1]);
+            let qm = t.pair(q, module);
+            let k = t.atom(&key);
+            let qk = t.pair(q, k);
+            let c = t.atom(&[4]);
+            let pa = t.atom(&[path]);
+            let env = t.list(&[c, qk, pa]);
+            let a2 = t.atom(&[2]);
+            t.list(&[a2, qm, env])
+        };
+        let genuine = mk(&mut t, 1);
+        let genuine_ph = vcore::model::treehash::tree_hash(&t, genuine);
+        let reveal = mk(&mut t, path);
+        let reveal_ph = vcore::model::treehash::tree_hash(&t, reveal);
+        // the genuine solution: (() (q . ((51 ph 400))) ())
+        let amount = 1000 + s.below(7) as u64 * 2;
+        let nil = t.nil();
+        let cc = t.atom(&[51]);
+        let ph = t.atom(&[0x6b; 32]);
+        let am = t.int(400);
+        let cond = t.list(&[cc, ph, am]);
+        let conds = t.list(&[cond]);
+        let q = t.atom(&[1]);
+        let delegated = t.pair(q, conds);
+        let sol = t.list(&[nil, delegated, nil]);
+        let junk = t.atom(b"junk");
+        let wrapped = match path {
+            1 => sol,
+            2 => t.pair(sol, junk),
+            3 => t.pair(junk, sol),
+            5 => {
+                let r = t.pair(sol, junk);
+                t.pair(junk, r)
+            }
+            _ => {
+                let r = t.pair(junk, sol);
+                t.pair(junk, r)
+            }
+        };
+        let mut parent = [0x5du8; 32];
+        parent[31] = path;
+        coin_spends.push(chia_protocol::CoinSpend::new(
+            chia_protocol::Coin::new(parent.into(), genuine_ph.into(), amount),
+            chia_protocol::Program::from(t.serialize(reveal)),
+            chia_protocol::Program::from(t.serialize(wrapped)),
+        ));
+        inputs.push((parent, reveal_ph, amount));
+        ctx.label(if path == 1 { "standard-puzzle:genuine" } else { "standard-puzzle:environment-path-shifted" });
+    }
     // one case in ten: the reveal of one spend is replaced by a DIFFERENT puzzle
     // while its coin keeps claiming the old puzzle hash — preferably a spend whose
     // predecessor claims (truthfully) the very same hash. The mempool entry points
@@ -589,7 +668,7 @@ pub fn property() -> Property {
                 run: case_program,
                 inflight: false,
                 min_nontrivial: 30_000,
-                required_labels: &["rbg2:accepted", "rbg:accepted", "run_spendbundle:accepted", "validate:accepted", "reveal-swapped", "reveal-swapped:predecessor-claims-the-same-hash"],
+                required_labels: &["rbg2:accepted", "rbg:accepted", "run_spendbundle:accepted", "validate:accepted", "reveal-swapped", "reveal-swapped:predecessor-claims-the-same-hash", "standard-puzzle:genuine", "standard-puzzle:environment-path-shifted"],
             },
         ],
         death_is_violation: false,
